@@ -40,6 +40,8 @@ NoWaits == {}
 AllWaits == {"tm", "tp", "min"}
 MCEntries3 == {E("/v/a", "prefix"), E("/v/a/1", "exact"), E("/v/b", "exact")}
 MCReqs3h == ReqsUpTo(2, {"/v/a", "/v/a/1", "/v/b"})
+MCEntries3q == {E("/v/a", "prefix"), E("/v/b", "exact")}
+MCReqs3q == ReqsUpTo(2, {"/v/a/1", "/v/b"}) \cup {<<"/v/a">>}
 
 Cnt(F(_, _)) == [x \in Hosts |-> [p \in MCP |-> F(x, p)]]
 St == [tbl |-> tbl, K |-> K, st |-> st, out |-> Cnt(Out), inn |-> Cnt(In)]
